@@ -37,6 +37,10 @@ def main() -> int:
                     res["failed"] = f"step {i} {nm}: {exc}"
                     break
                 last = rp.wlog[-1] if (nm == "Write" and args[0] == 0) else None
+                if nm == "MultiAbort":
+                    mark({"ev": "e", "job": j, "i": i, "name": nm, "done": list(rp.done)})
+                    res["steps"] = i + 1
+                    continue
                 mark({"ev": "e", "job": j, "i": i, "name": nm, "acc": (last["acc"] if last else None),
                       "wlog": ([{k: v for k, v in w.items() if k != "exc"} for w in rp.wlog]
                                if nm in ("MultiEnd",) else None),
